@@ -29,6 +29,7 @@ META = {
 META["technique"] += '; dominance of the `block_scope` test over every hand-over of the block stacks to a copied context'
 META["technique"] += '; include_partials may gate loaded templates only (children() of every Node); presence-by-key in the loaders'
 META["technique"] += '; loaded templates rendered through render_with_context only; blank-flag soundness over every Node'
+META["technique"] += '; who-may-catch StopRender (class hierarchy read from exceptions.py)'
 META["level_text"] += " Also decided: the parent's block stacks are handed to a copied context only on the block_scope branch."
 
 EXT = "liquid2/builtin/tags/extends_tag.py"
@@ -448,6 +449,10 @@ def run(prog: Program, res: Result) -> None:  # noqa: PLR0912, PLR0915
         else:
             res.ok("C08.R15", site, what, f"{sorted(loaded)} rendered by call only")
     res.floor("C08.R15", "render methods that load a template", n15, 4)
+    res.rule("C08.R16", "`extends` stops the template it is written in wherever it is nested: StopRender can be caught only by Template.render_with_context[_async] - no other handler in liquid2 names StopRender or a liquid2 base class of it (a `for` loop catching `LiquidInterrupt` while StopRender derives from it swallows the stop, and the child's text and blocks are rendered again after the page)")
+    from checks.shared import check_stoprender_catchers
+
+    check_stoprender_catchers(prog, res, "C08.R16")
     res.rule("C08.R8", "the inheritance tags are never taken for whitespace: ExtendsNode and the inheritance BlockNode write the parent chain's / the override's text, so their `blank` flag is False however they are nested - a blank `extends` inside a `{% liquid %}` or `{% if %}` whose other children are blank is rendered into the null buffer and the page comes out empty, without an error (shared with C01.R2 / C18.R2, restricted to liquid2/builtin/tags/extends_tag.py)")
     from checks.blank import check_blank_flags
 
